@@ -22,6 +22,14 @@ def fam_core(seed, i):
     w = {"send": 8, "call": 8, "ping": 5, "yield": 3, "clone": 1, "drop": 1, "stop": 0.5, "downgrade": 0.5, "upgrade": 0.5,
          "sender": 0.5, "caller": 0.5, "weak_sender": 0.3, "weak_caller": 0.3}
     scripts = SCRIPTS_CORE
+    if rng.random() < 0.12:
+        # the actor is polled only when no client can run: the deepest backlog the programs can build (20-30 messages)
+        sc["starve"] = ["a1"]
+        w = {"send": 10, "call": 1, "ping": 0.5}
+        cnt = [0]
+        for c in kinds:
+            sc["clients"][c] = Prog(rng, c, handles.get(c, {}), w, [[], [], [Y]], cnt).run(rng.randint(6, 10))
+        return sc
     if rng.random() < 0.3:
         # pings used as barriers while handlers are suspended mid-way and other clients' pings are queued
         w = {"send": 5, "ping": 6, "call": 2, "yield": 2}
